@@ -1,3 +1,5 @@
 import Cql.Audit
 import Cql.Props.C09
+import Cql.Props.C09Concurrent
 #audit_namespace Cql.Props.C09
+#audit_namespace Cql.Props.C09Concurrent
